@@ -41,6 +41,8 @@ def build_models(spec):
                 meta['indexes'] = [make_index(d) for d in m['indexes']]
             if m.get('constraints'):
                 meta['constraints'] = [make_constraint(d) for d in m['constraints']]
+            if m.get('comment'):
+                meta['db_table_comment'] = m['comment']
             attrs['Meta'] = type('Meta', (), meta)
             import warnings
             with warnings.catch_warnings():
@@ -113,7 +115,8 @@ def spec_from_sig(p):
             ms.append({'name': m.model_name, 'table': m.table_name, 'fields': fields,
                        'unique_together': [list(t) for t in m.unique_together],
                        'index_together': [list(t) for t in m.index_together],
-                       'indexes': idx, 'constraints': cons})
+                       'indexes': idx, 'constraints': cons,
+                       **({'comment': m.db_table_comment} if getattr(m, 'db_table_comment', None) else {})})
         spec['apps'].append({'id': a.app_id, 'models': ms})
     return spec
 
